@@ -1133,6 +1133,30 @@ class SVal:
             if a_[0] in ('list', 'tuple') and len(a_[1]) == 1 and isinstance(a_[1][0], tuple) and a_[1][0][0] == 'each' and not a_[1][0][3]:
                 ea = a_[1][0]
                 term = ('sum', ea[1], ea[2], ea[4])
+            elif a_[0] == 'list' and a_[1] and any(isinstance(x_, tuple) and x_ and x_[0] in ('when', 'each') for x_ in a_[1]) and not any(
+                    isinstance(x_, tuple) and x_ and x_[0] == 'star' for x_ in a_[1]):
+                # a list of chunks built up step by step (some appended under a condition, some in a loop) and joined at the end is the
+                # buffer that `+=` builds up in the same steps
+                parts_ = []
+                for x_ in a_[1]:
+                    if isinstance(x_, tuple) and x_ and x_[0] == 'each':
+                        sm_ = ('sum', x_[1], x_[2], x_[4])
+                        parts_.append(('when', x_[3], sm_) if x_[3] else sm_)
+                    else:
+                        parts_.append(x_)
+                term = parts_[0] if len(parts_) == 1 else ('add', tuple(parts_))
+            elif a_[0] in ('list', 'tuple') and a_[1] and not any(isinstance(x_, tuple) and x_ and x_[0] in ('when', 'each', 'star') for x_ in a_[1]):
+                # b''.join((a, b, c)) is a + b + c
+                acc_ = a_[1][0]
+                for x_ in a_[1][1:]:
+                    acc_ = mk_bin('+', acc_, x_)
+                term = acc_
+            elif a_[0] in ('attr', 'param', 'acc') or (a_[0] == 'call' and a_[1] in ('builtins.list', 'builtins.tuple')):
+                # b''.join(xs) over a sequence held somewhere: the concatenation of its elements, in order
+                seq_ = a_[3][0][1] if a_[0] == 'call' and len(a_[3]) == 1 else a_
+                if seq_[0] != 'call':
+                    lid_ = self._new_id()
+                    term = ('sum', lid_, seq_, ('elem', seq_, lid_))
         # a small literal table read with .get(key, default) is the chain of conditionals it abbreviates
         if name == 'get' and recv is not None and recv[0] == 'dict' and 1 <= len(bound) <= 2 and 0 < len(recv[1]) <= 24 \
                 and all(isinstance(x, tuple) and len(x) == 2 and x[0][0] in ('const', 'global') for x in recv[1]) \
